@@ -9,7 +9,9 @@
    the index of a block request to an answer (a body, or no 200 answer).  [fhandle] is
    handler.handle (unsegmented or segment loop) over fetchBlock's tee / compare / commit;
    [fsyncs] any sequence of syncs, each against its own adversary, on one store.
-   [sound s] = every entry of the store hashes to the CID it is stored under. *)
+   [sound s] = every entry of the store hashes to the CID it is stored under.
+   [verifiable c] = the hash function the CID c names is available to the subscriber (the
+   link system's HasherChooser accepts its code); nothing is assumed about it either. *)
 From Lib Require Import Bytes.
 From Model Require Import C01_ChainSync C02_FetchVerify.
 From Proofs Require Import C02_FetchVerify Compose_C02_C01.
@@ -19,9 +21,10 @@ Open Scope N_scope.
    heads) against ANY publisher behaviour, a store that was sound is sound. *)
 Theorem store_sound :
   forall (body : Type) (hashes_to : body -> cid -> bool) (links_of : body -> option (list edge))
+         (verifiable : cid -> bool)
          fuel (l : list (responder body * fsync)) s,
     sound body hashes_to s = true ->
-    sound body hashes_to (fsyncs body hashes_to links_of fuel l s) = true.
+    sound body hashes_to (fsyncs body hashes_to links_of verifiable fuel l s) = true.
 Proof. exact store_sound_proved. Qed.
 Print Assumptions store_sound.
 
@@ -30,9 +33,10 @@ Print Assumptions store_sound.
    (No premise on the store: a block found locally is hashed before it is used.) *)
 Theorem hook_only_sound :
   forall (body : Type) (hashes_to : body -> cid -> bool) (links_of : body -> option (list edge))
+         (verifiable : cid -> bool)
          fuel resp q s x,
-    In x (fh_hooks body (fhandle body hashes_to links_of fuel resp q s)) ->
-    exists b, bget body (fh_store body (fhandle body hashes_to links_of fuel resp q s)) x = Some b /\
+    In x (fh_hooks body (fhandle body hashes_to links_of verifiable fuel resp q s)) ->
+    exists b, bget body (fh_store body (fhandle body hashes_to links_of verifiable fuel resp q s)) x = Some b /\
               hashes_to b x = true.
 Proof. exact hook_only_sound_proved. Qed.
 Print Assumptions hook_only_sound.
@@ -40,9 +44,10 @@ Print Assumptions hook_only_sound.
 (* a block that is soundly stored stays so, also across failing syncs *)
 Theorem held_is_kept :
   forall (body : Type) (hashes_to : body -> cid -> bool) (links_of : body -> option (list edge))
+         (verifiable : cid -> bool)
          fuel resp q s x,
     held body hashes_to s x = true ->
-    held body hashes_to (fh_store body (fhandle body hashes_to links_of fuel resp q s)) x = true.
+    held body hashes_to (fh_store body (fhandle body hashes_to links_of verifiable fuel resp q s)) x = true.
 Proof. exact held_is_kept_proved. Qed.
 Print Assumptions held_is_kept.
 
@@ -63,8 +68,9 @@ Print Assumptions bad_fetch_commits_nothing.
    not usable from the store, the hook is not called at all and the count is 0. *)
 Theorem bad_body_fails :
   forall (body : Type) (hashes_to : body -> cid -> bool) (links_of : body -> option (list edge))
+         (verifiable : cid -> bool)
          fuel resp v stop lim h c s i x,
-    let o := fhandle_plain body hashes_to links_of fuel resp v stop lim h c [] s in
+    let o := fhandle_plain body hashes_to links_of verifiable fuel resp v stop lim h c [] s in
     nth_error (fh_reqs body o) i = Some x -> bad_answer body hashes_to (resp i) x = true ->
     fh_err body o = Some (FBad x) /\ S i = length (fh_reqs body o) /\
     local_ok body hashes_to links_of (fh_store body o) x = None /\
@@ -76,8 +82,9 @@ Print Assumptions bad_body_fails.
    the bad answer have been made (for soundly stored blocks only: hook_only_sound). *)
 Theorem bad_body_fails_any_segment_size :
   forall (body : Type) (hashes_to : body -> cid -> bool) (links_of : body -> option (list edge))
+         (verifiable : cid -> bool)
          fuel resp q s i x,
-    let o := fhandle body hashes_to links_of fuel resp q s in
+    let o := fhandle body hashes_to links_of verifiable fuel resp q s in
     nth_error (fh_reqs body o) i = Some x -> bad_answer body hashes_to (resp i) x = true ->
     fh_err body o = Some (FBad x) /\ S i = length (fh_reqs body o) /\
     local_ok body hashes_to links_of (fh_store body o) x = None /\ fh_count body o = 0%nat.
@@ -89,9 +96,9 @@ Print Assumptions bad_body_fails_any_segment_size.
    CID's length, equals the CID's digest -- after any syncs against any publisher. *)
 Theorem truncated_digest :
   forall (H : N -> bytes -> bytes) (cid_fn : cid -> N) (cid_len : cid -> nat) (cid_digest : cid -> bytes)
-         (links_of : bytes -> option (list edge)) fuel l s,
+         (links_of : bytes -> option (list edge)) (verifiable : cid -> bool) fuel l s,
     sound bytes (trunc_hashes_to H cid_fn cid_len cid_digest) s = true ->
-    forall c b, In (c, b) (fsyncs bytes (trunc_hashes_to H cid_fn cid_len cid_digest) links_of fuel l s) ->
+    forall c b, In (c, b) (fsyncs bytes (trunc_hashes_to H cid_fn cid_len cid_digest) links_of verifiable fuel l s) ->
       firstn (cid_len c) (H (cid_fn c) b) = cid_digest c.
 Proof. exact truncated_digest_proved. Qed.
 Print Assumptions truncated_digest.
@@ -114,6 +121,28 @@ Theorem digest_check_history_independent :
 Proof. exact digest_check_history_independent_proved. Qed.
 Print Assumptions digest_check_history_independent.
 
+(* A digest that cannot be computed is not a digest that matched.  [verifiable c] = false: the
+   hash function c names is not available.  (1) a walk that reaches such a CID stops there
+   with the error for it, having requested, stored and reported nothing for it; (2) over any
+   sequence of syncs against any publisher, every entry added to the store is for a CID whose
+   hash function IS available and to which the body hashes under it; (3) the hook is never
+   called for a CID whose hash function is unavailable. *)
+Theorem unverifiable_is_rejected :
+  forall (body : Type) (hashes_to : body -> cid -> bool) (links_of : body -> option (list edge))
+         (verifiable : cid -> bool),
+    (forall f resp v stop lim c reqs s,
+       verifiable c = false ->
+       fwalk body hashes_to links_of verifiable (S f) resp v stop lim c reqs s = FO body [] reqs s (FUnverifiable c)) /\
+    (forall fuel (l : list (responder body * fsync)) s e,
+       In e (fsyncs body hashes_to links_of verifiable fuel l s) ->
+       In e s \/ (verifiable (fst e) = true /\ hashes_to (snd e) (fst e) = true)) /\
+    (forall fuel resp q s x,
+       In x (fh_hooks body (fhandle body hashes_to links_of verifiable fuel resp q s)) -> verifiable x = true).
+Proof.
+  intros. split; [intros; apply unverifiable_is_refused; assumption|apply unverifiable_is_rejected_proved].
+Qed.
+Print Assumptions unverifiable_is_rejected.
+
 (* ---- an honest publisher: C02 computes exactly what C01 computes ---- *)
 
 (* [content c] is the genuine body of block c: it hashes to c and decodes to c's links in
@@ -127,11 +156,12 @@ Theorem honest_fwalk_is_walk :
          (w : world) (content : cid -> body),
     (forall c, hashes_to (content c) c = true) ->
     (forall c, links_of (content c) = dag_get (w_dag w) c) ->
+    forall verifiable : cid -> bool, (forall c, verifiable c = true) ->
     forall resp v stop fuel lim c reqs s,
       store_wf w s = true ->
       let o := walk fuel w v stop lim c s in
       honest_on body w content resp (reqs ++ o_reqs o) ->
-      fwalk body hashes_to links_of fuel resp v stop lim c reqs (attach body content s) =
+      fwalk body hashes_to links_of verifiable fuel resp v stop lim c reqs (attach body content s) =
         FO body (o_order o) (reqs ++ o_reqs o) (attach body content (o_store o)) (conv_res (o_res o)) /\
       store_wf w (o_store o) = true.
 Proof. exact honest_fwalk_is_walk_proved. Qed.
@@ -144,11 +174,12 @@ Theorem honest_fhandle_is_handle :
          (w : world) (content : cid -> body),
     (forall c, hashes_to (content c) c = true) ->
     (forall c, links_of (content c) = dag_get (w_dag w) c) ->
+    forall verifiable : cid -> bool, (forall c, verifiable c = true) ->
     forall resp q s,
       store_wf w s = true ->
       let o := handle w (fs_view q) (fs_stop q) (fs_lim q) (fs_segdl q) (fs_hook q) (fs_head q) s in
       honest_on body w content resp (h_reqs o) ->
-      fhandle body hashes_to links_of (walk_fuel w) resp q (attach body content s) = conv_hout body content o.
+      fhandle body hashes_to links_of verifiable (walk_fuel w) resp q (attach body content s) = conv_hout body content o.
 Proof. exact honest_fhandle_is_handle_proved. Qed.
 Print Assumptions honest_fhandle_is_handle.
 
@@ -158,16 +189,17 @@ Print Assumptions honest_fhandle_is_handle.
    counts them and returns no error -- the right-hand side of sync_ad_chain_meets_spec. *)
 Theorem honest_sync_meets_c01_spec :
   forall (body : Type) (hashes_to : body -> cid -> bool) (links_of : body -> option (list edge))
-         (content : cid -> body) k extra ch pub head stop lim segdl s resp,
+         (content : cid -> body) (verifiable : cid -> bool) k extra ch pub head stop lim segdl s resp,
     let w := chain_world k extra ch pub in
     (forall c, hashes_to (content c) c = true) ->
     (forall c, links_of (content c) = dag_get (w_dag w) c) ->
+    (forall c, verifiable c = true) ->
     chain_wf k extra ch = true -> In head ch -> is_stop stop head = false ->
     store_wf w s = true ->
     let seg := segment ch head stop lim in
     avail pub s seg = true ->
     honest_on body w content resp (missing s seg) ->
-    fhandle body hashes_to links_of (walk_fuel w) resp (FSYNC (kind_view k) stop lim segdl HNominate head)
+    fhandle body hashes_to links_of verifiable (walk_fuel w) resp (FSYNC (kind_view k) stop lim segdl HNominate head)
             (attach body content s) =
     FHO body seg (missing s seg) (attach body content (rev (missing s seg) ++ s)) (length seg) None.
 Proof. exact honest_sync_meets_c01_spec_proved. Qed.
